@@ -71,9 +71,11 @@ def eq(x, y):
     elif isinstance(x, (tuple, list)):
         return type(x) == type(y) and len(x) == len(y) and (len(x) == 0 or min([eq(i,j) for i,j in zip(x,y)]))
     elif isinstance(x, np.ndarray):
-        return type(x) == type(y) and x.shape == y.shape and (0 in x.shape or np.all(veq(x,y)))
+        return type(x) == type(y) and x.shape == y.shape and (0 in x.shape or _cells_eq(x,y))
+    elif isinstance(x, pd.Index): ## labels are compared like cells, so that a NaN label matches a NaN label
+        return isinstance(y, pd.Index) and x.shape == y.shape and (0 in x.shape or _cells_eq(np.asarray(x, dtype = object), np.asarray(y, dtype = object)))
     elif isinstance(x, (pd.DataFrame, pd.Series)):
-        return type(x)==type(y) and _eq_attrs(x,y, attrs = ['shape', 'index', 'columns']) and (0 in x.shape or np.all(veq(x,y)))
+        return type(x)==type(y) and _eq_attrs(x,y, attrs = ['shape', 'index', 'columns']) and (0 in x.shape or _cells_eq(x,y))
     elif isinstance(x, dict):
         if type(x) == type(y) and len(x)==len(y):
             if len(x) == 0:
@@ -97,6 +99,16 @@ def eq(x, y):
             return False # if you really have no == supported, the two items are not the same
 
 veq = np.vectorize(eq)
+
+def _cells_eq(x, y):
+    """
+    all cells equal. np.vectorize hands datetime64/timedelta64 cells over as bare integers (and NaT as None), 
+    so unless both sides hold such cells in the same unit they are compared as the numpy scalars they are: a date is not its epoch count, NaT is not None
+    """
+    xv, yv = np.asarray(x), np.asarray(y)
+    if (xv.dtype.kind in 'mM' or yv.dtype.kind in 'mM') and xv.dtype != yv.dtype:
+        return all(eq(i, j) for i, j in zip(xv.ravel(), yv.ravel()))
+    return bool(np.all(veq(x,y)))
 
 
 def in_(x, seq):
